@@ -543,6 +543,19 @@ func (cp *ClientPromise) Fulfill(c *Client) {
 		cp.h.mu.Unlock()
 		panic("ClientPromise.Resolve called more than once")
 	}
+	// Move the promise's references to the target before the resolution
+	// becomes visible: as soon as cp.h.resolved is closed, a concurrent
+	// Release or AddRef through the promised client acts on the target's
+	// count, which must already include them.
+	moved := 0
+	if rh != nil && rh != cp.h && cp.h.refs > 0 {
+		rh.mu.Lock()
+		if th := resolveHook(rh); th != nil {
+			moved = cp.h.refs
+			th.refs += moved
+			th.mu.Unlock()
+		}
+	}
 	cp.h.resolvedHook = rh
 	close(cp.h.resolved)
 	refs := cp.h.refs
@@ -558,7 +571,7 @@ func (cp *ClientPromise) Fulfill(c *Client) {
 	}
 	rh = resolveHook(cp.h) // swaps mutex on cp.h for mutex on rh
 	if rh != nil {
-		rh.refs += refs
+		rh.refs += refs - moved
 		rh.mu.Unlock()
 	}
 	<-cp.h.done
